@@ -763,6 +763,22 @@ func cmdCheck(args []string) int {
 			if res != nil {
 				r = res[p.idx]
 			}
+			if !confirms(p.v, r) && p.known && p.v.Nondet {
+				// a RECORDED finding whose native behaviour depends on the real scheduler, map order or
+				// time: not re-witnessing it in this run is no evidence against the encoding (it was
+				// demonstrated when it was recorded); say so and go on.  New violations never take this path.
+				if !seenKnown[p.v.KnownID] {
+					seenKnown[p.v.KnownID] = true
+					what := ""
+					for _, kk := range known {
+						if kk.ID == p.v.KnownID {
+							what = kk.What
+						}
+					}
+					knownLines = append(knownLines, fmt.Sprintf("KNOWN-FINDING: property=%s %s [%s; found symbolically at %s %s; the nondeterministic native replay did not re-witness it in this run]", id, what, p.v.KnownID, p.v.Harness, modelStr(p.v.Model)))
+				}
+				continue
+			}
 			if !confirms(p.v, r) {
 				rb, _ := json.Marshal(r)
 				inconclusive = append(inconclusive, fmt.Sprintf("ENCODING-MISMATCH: %s %s: the solver's model did not reproduce natively (native result %s, model %v)", p.v.Harness, p.v.Label, rb, p.v.Model))
